@@ -27,7 +27,10 @@ def translate(ctx):
 
 def explore(ctx):
     cases = LC.CaseBuffer(ctx)
-    for c in LC.gen_cases(ctx, ctx.budget(500, 12000), mutate_p=0.75, prop='C08'):
+    import itertools
+    for c in itertools.chain(LC.gen_cases(ctx, ctx.budget(500, 12000), mutate_p=0.75, prop='C08'),
+                             LC.class_key_faults(ctx, ctx.budget(250, 5000)),
+                             LC.untyped_regions(ctx, ctx.budget(60, 1200))):
         cases.append(c)
         LC.record_distribution(ctx, c)
         ctx.case((c.text, repr(c.doc_type)), nontrivial=c.real_out[0] != 'ok')
